@@ -189,7 +189,7 @@ def interleavings(counts):
     yield from go(list(counts), [])
 
 
-def gen_tuple_exhaustive(rng, kinds, limit=None):
+def gen_tuple_exhaustive(rng, kinds, limit=None, variant=None):
     """Every interleaving of one request of each kind (one per worker; same-group keyed requests are put on one
     worker), on a populated state where all of them concern topic 1 / group 1 of cluster 1."""
     env = Env(rng)
@@ -205,7 +205,7 @@ def gen_tuple_exhaustive(rng, kinds, limit=None):
         if k == "B":
             reqs.append(["B", 1, 1, 0, 1, env.nxt_off()])      # re-creation with fewer partitions after a delete
         elif k == "DG":
-            reqs.append(["DG", 1, 1, rng.choice([0, 1])])
+            reqs.append(["DG", 1, 1, rng.choice([0, 1]) if variant is None else variant])
         else:
             reqs.append(mk_req(env, k, g=1, t=1, c=1, cnt=cnt, p=1))
     home = {}
